@@ -513,3 +513,180 @@ func stackOnlyValue(v ssa.Value, inProgress map[*ssa.Parameter]bool) bool {
 	}
 	return true
 }
+
+// ---------- W7 ----------
+
+func init() {
+	register("W7", "no append to a window onto live storage: an append whose first operand may be a two-index sub-slice s[i:j] of a longer array (its spare capacity is the array's following elements) would overwrite those elements; every such append is either the delete idiom on the same base (append(x[:i], x[j:]...)), or the window reaches it only on paths that contradict the append's own guard", 1, ruleW7)
+	claim("C01", "W7")
+	claim("C05", "W7")
+}
+
+// nilFacts: the nil tests known on entry to block b (value -> isNil), plus
+// those implied by taking the edge from pred to its successor succ.
+func nilFacts(b *ssa.BasicBlock) map[ssa.Value]bool {
+	out := map[ssa.Value]bool{}
+	for _, pc := range pathConds(b) {
+		cond, neg := stripNot(pc.If.Cond)
+		if v, neq, ok := nilTest(cond); ok {
+			isNil := pc.Branch != neq
+			if neg {
+				isNil = !isNil
+			}
+			out[v] = isNil
+		}
+	}
+	return out
+}
+
+func edgeNilFacts(pred, succ *ssa.BasicBlock) map[ssa.Value]bool {
+	out := nilFacts(pred)
+	if len(pred.Instrs) > 0 {
+		if ifi, ok := pred.Instrs[len(pred.Instrs)-1].(*ssa.If); ok && len(pred.Succs) == 2 && pred.Succs[0] != pred.Succs[1] {
+			cond, neg := stripNot(ifi.Cond)
+			if v, neq, ok := nilTest(cond); ok {
+				taken := pred.Succs[0] == succ
+				isNil := taken != neq
+				if neg {
+					isNil = !isNil
+				}
+				out[v] = isNil
+			}
+		}
+	}
+	return out
+}
+
+func ruleW7(c *Ctx) {
+	n, sites := 0, 0
+	for _, fn := range c.P.Funcs {
+		if !isProdPkg(fnPkgPath(fn)) {
+			continue
+		}
+		fn := fn
+		eachInstr(fn, func(in ssa.Instruction) {
+			call, ok := in.(*ssa.Call)
+			if !ok {
+				return
+			}
+			bi, ok := call.Call.Value.(*ssa.Builtin)
+			if !ok || bi.Name() != "append" || len(call.Call.Args) < 2 {
+				return
+			}
+			sites++
+			// origins of the first operand through phis, with the edge facts that select them
+			type origin struct {
+				sl    *ssa.Slice
+				facts map[ssa.Value]bool
+			}
+			var origins []origin
+			seen := map[ssa.Value]bool{}
+			var walk func(v ssa.Value, facts map[ssa.Value]bool, d int)
+			walk = func(v ssa.Value, facts map[ssa.Value]bool, d int) {
+				if d > 6 || seen[v] {
+					return
+				}
+				seen[v] = true
+				switch x := v.(type) {
+				case *ssa.Slice:
+					if x.Max == nil && x.High != nil {
+						if _, isStr := x.X.Type().Underlying().(*types.Basic); isStr {
+							return
+						}
+						if _, fresh := x.X.(*ssa.Alloc); fresh {
+							return // make([]T, n, cap): the spare capacity belongs to nobody else
+						}
+						if k, ok := constInt(x.High); ok && k == 0 {
+							return // s[:0]: storage deliberately reused from the start (in-situ filter)
+						}
+						origins = append(origins, origin{x, facts})
+					}
+				case *ssa.Phi:
+					for i, e := range x.Edges {
+						f2 := map[ssa.Value]bool{}
+						for k, vv := range facts {
+							f2[k] = vv
+						}
+						for k, vv := range edgeNilFacts(x.Block().Preds[i], x.Block()) {
+							f2[k] = vv
+						}
+						walk(e, f2, d+1)
+					}
+				case *ssa.ChangeType:
+					walk(x.X, facts, d+1)
+				}
+			}
+			walk(call.Call.Args[0], map[ssa.Value]bool{}, 0)
+			if len(origins) == 0 {
+				return
+			}
+			at := nilFacts(call.Block())
+			for _, o := range origins {
+				n++
+				key := fmt.Sprintf("%s: append to window of %s", fnName(fn), describeBase(o.sl.X))
+				pos := c.P.Pos(call.Pos())
+				// delete idiom: the appended elements are a later window of the same base
+				sameBase := false
+				if s2, ok := call.Call.Args[1].(*ssa.Slice); ok {
+					if sameValue(s2.X, o.sl.X) || sameFieldLoad(s2.X, o.sl.X) {
+						sameBase = true
+					}
+				}
+				contradiction := false
+				for v, isNil := range o.facts {
+					if w, ok := at[v]; ok && w != isNil {
+						contradiction = true
+					}
+				}
+				switch {
+				case sameBase:
+					c.ok(key, pos, "delete idiom: elements of the same array are moved down over the removed ones")
+				case contradiction:
+					c.ok(key, pos, "the window reaches this append only on paths that contradict the append's guard (it is cloned first on all others)")
+				default:
+					c.viol(key, pos, fmt.Sprintf("the first operand may be the sub-slice taken at %s, whose spare capacity is the following elements of the same array: the append overwrites them in place, and the result aliases storage that is still in use (e.g. a *args tuple that later pushes on the operand stack rewrite)", c.P.Pos(o.sl.Pos())))
+				}
+			}
+		})
+	}
+	if sites == 0 {
+		c.anchorFail("no append calls found")
+	}
+	if n == 0 {
+		c.trivial("append census", "-", fmt.Sprintf("%d append sites, none takes a two-index window as first operand", sites))
+	}
+}
+
+func describeBase(v ssa.Value) string {
+	if u, ok := v.(*ssa.UnOp); ok {
+		if fa, ok := u.X.(*ssa.FieldAddr); ok {
+			_, f := ownerField(fa)
+			return "." + f
+		}
+		if a, ok := u.X.(*ssa.Alloc); ok && a.Comment != "" {
+			return a.Comment
+		}
+	}
+	if v.Name() != "" {
+		return v.Name()
+	}
+	return "?"
+}
+
+// sameFieldLoad: two loads of the same field of the same object / same cell.
+func sameFieldLoad(a, b ssa.Value) bool {
+	ua, ok1 := a.(*ssa.UnOp)
+	ub, ok2 := b.(*ssa.UnOp)
+	if !ok1 || !ok2 {
+		return false
+	}
+	if ua.X == ub.X {
+		return true
+	}
+	fa, ok1 := ua.X.(*ssa.FieldAddr)
+	fb, ok2 := ub.X.(*ssa.FieldAddr)
+	if ok1 && ok2 && fa.Field == fb.Field && (fa.X == fb.X || sameFieldLoad(fa.X, fb.X)) {
+		return true
+	}
+	return false
+}
